@@ -215,6 +215,34 @@ func TestCheck(t *testing.T) {
 	})
 	r.Exhaustive(fmt.Sprintf("all ordered pairs over the %d-element pre-release universe (length <= %d) through Ver.Compare, DefaultComparePreRelease and Ver.Latest; helpers on all pairs of length <= %d and a 1-in-16 sample", n, L, helperL))
 
+	// Phase H: ComparePreRelease is a package setting: after it was replaced by another comparator and restored, every entry
+	// point must follow section 11 again (results remembered from the other setting must not survive).
+	r.Phase("H: history - pairs compared under a replaced ComparePreRelease, then again under the restored default", func() {
+		old := sem.ComparePreRelease
+		defer func() { sem.ComparePreRelease = old }()
+		small := ref.PreUniverse("019aB-.", 3)
+		m := int64(len(small))
+		reversed := func(a, b string) int { return -sem.DefaultComparePreRelease(a, b) }
+		// the setting is toggled around every single pair, so a result remembered under the other setting would be hit at once
+		r.Serial(func(w *vkit.W) {
+			for k := int64(0); k < m*m; k++ {
+				c := Case{A: V{Major: 1, Pre: small[k/m]}, B: V{Major: 1, Pre: small[k%m], Build: "b"}, Helpers: k%5 == 0}
+				a, b := c.A.ver(), c.B.ver()
+				sem.ComparePreRelease = reversed
+				x, y := a.Compare(b), b.Compare(a)
+				sem.ComparePreRelease = old
+				if x != -y {
+					w.Fail(c, "replaced-comparator-not-used-consistently", fmt.Sprintf("under a reversed ComparePreRelease: Compare = %d, reversed arguments = %d", x, y))
+				}
+				if judge(c, w) {
+					w.Eval(false)
+					continue
+				}
+				w.Eval(nontrivial(c))
+			}
+		})
+	})
+
 	// Phase B: cores x cores with a small pre-release set: core order dominates, release above pre-release.
 	r.Phase("B: all ordered pairs of cores x small pre-release set", func() {
 		pres := []string{"", "0", "a", "1.2", "rc.1", "-"}
